@@ -551,7 +551,7 @@ def run(ctx):
         if not thorough:     # the two widest shapes carry the per-name-set / per-type-set coverage classes: keep them shallow in quick
             var_ = [s for s in var_ if not (s["ar"] == 3 and s["nres"] == 3)]
             fix_ = [s for s in fix_ if not (s["ar"] == 3 and s["nres"] == 3)]
-        deep = (var_[:4] + fix_[:5] + rest[:3]) if thorough else [var_[0], fix_[0]]
+        deep = (var_[:3] + fix_[:4] + rest[:2]) if thorough else [var_[0], fix_[0]]
     mc = mc_module("MatryerMockRun", deep)
     chunks = ["Opts00", "Opts01", "Opts10", "Opts11"]
     exports = []
